@@ -148,6 +148,8 @@ def wcs_specs(tier, seed):
                         sc = SCALES[(ip + ir + ifr + seed) % len(SCALES)]
                         cv = CRVALS[(ir + ipa + ifr + seed) % len(CRVALS)]
                         out.append(W.wspec(proj, rot, sc, flip, fr, cv))
+                        if (ip + ir + ipa + ifr + seed) % 4 == 2 and fr != 'fk4':
+                            out[-1]['latfirst'] = True      # the latitude on the first world axis (CTYPE1 = DEC-- / GLAT-)
         return out
     for ip, proj in enumerate(PROJS):
         for ir, rot in enumerate(ROTS):
@@ -158,8 +160,10 @@ def wcs_specs(tier, seed):
                         # costs ~95 ms instead of ~20 ms; the frame is opaque to the library, so FK4 is crossed with
                         # projection x rotation x scale x parity fully and with crval cyclically
                         cvs = CRVALS if fr != 'fk4' else [CRVALS[(ip + ir + isc + ipa) % len(CRVALS)]]
-                        for cv in cvs:
+                        for icv, cv in enumerate(cvs):
                             out.append(W.wspec(proj, rot, sc, flip, fr, cv))
+                            if (ip + ir + isc + ipa + icv) % 4 == 2 and fr != 'fk4':
+                                out[-1]['latfirst'] = True
     return out
 
 
